@@ -256,9 +256,23 @@ pub fn s_script() -> SBoxedStrategy<String> {
 pub fn s_region() -> SBoxedStrategy<String> {
     prop_oneof![3 => "[a-z]{2}", 2 => "[0-9]{3}"].sboxed()
 }
+/// registered variant subtags (IANA registry / CLDR): code that special-cases a variant
+/// (posix, valencia, the orthography years ...) only reacts to real ones
+pub const REAL_VARIANTS: &[&str] = &[
+    "posix", "valencia", "1901", "1996", "1994", "fonipa", "fonupa", "fonxsamp", "pinyin", "wadegile", "arevela", "arevmda", "baku1926", "tarask", "rozaj", "biske", "njiva",
+    "osojs", "solba", "nedis", "polyton", "monoton", "scotland", "scouse", "ulster", "1606nict", "1694acad", "1959acad", "aluku", "ao1990", "bohoric", "boont", "colb1945",
+    "cornu", "dajnko", "ekavsk", "ijekavsk", "emodeng", "hepburn", "heploc", "hognorsk", "itihasa", "jauer", "jyutping", "kkcor", "kscor", "laukika", "lipaw", "luna1918",
+    "metelko", "ndyuka", "newfound", "nulik", "pamaka", "petr1708", "puter", "rigik", "rumgr", "surmiran", "sursilv", "sutsilv", "uccor", "ucrcor", "unifon", "vaidika",
+    "vallader", "abl1943", "akuapem", "alalc97", "asante", "balanka", "barla", "basiceng", "bauddha", "bciav", "bcizbl", "blasl", "bornholm", "cisaup", "creiss", "fascia",
+    "fodom", "gallo", "gascon", "grclass", "grital", "grmistr", "ivanchov", "kociewie", "lemosin", "lengadoc", "ltg1929", "ltg2007", "mdcegyp", "mdctrans", "nicard",
+    "oxendict", "pahawh2", "pahawh3", "pahawh4", "peano", "pehoeji", "provenc", "simple", "spanglis", "synnejyl", "tailo", "tongyong", "tunumiit", "vecdruka", "vivaraup",
+    "xsistemo", "macos", "windows",
+];
+
 pub fn s_variant() -> SBoxedStrategy<String> {
     prop_oneof![
         3 => "[0-9][a-z0-9]{3}",
+        2 => proptest::sample::select(REAL_VARIANTS.to_vec()).prop_map(|s| s.to_string()),
         3 => "[a-z0-9]{5,8}",
         1 => "[a-z]{5,8}",
         1 => "[0-9]{4,8}",
